@@ -200,7 +200,7 @@ def finish(prop, tier, seed, mod, jobs, results, t0):
             'harness_errors': harness_errors[:20],
             'known_findings_hit': [k for k, _ in known_hits],
             'functions_encoded': meta.get('functions_encoded', []),
-            'bounds': meta.get('bounds', {}).get(tier, meta.get('bounds', {})),
+            'bounds': (meta.get('bounds', {}).get(tier, meta.get('bounds')) if isinstance(meta.get('bounds'), dict) else meta.get('bounds', '')),
             'outside_claim': meta.get('outside_claim', []),
             'stubs': meta.get('stubs', []),
             'engine': meta.get('engine', 'minisym (z3 %s) proxy execution of the real code, re-execution DFS' % _z3v()),
